@@ -155,13 +155,16 @@ def _release_lock_on_arr_writeability(arr: np.ndarray):
 
             _views_waiting_for_unlock[arr_id].remove(view_arr_id)
 
-            try:
-                view_arr = _array_tracker.pop(view_arr_id)()
-                if view_arr is None:
-                    continue
-            except KeyError:
-                # view array is no longer available for unlocking
+            view_ref = _array_tracker.get(view_arr_id)
+            view_arr = view_ref() if view_ref is not None else None
+            if view_arr is None or view_arr.base is not arr:
+                # Stale entry: the view that was waiting on (an array that had)
+                # this id is gone. Ids get reused: `view_arr_id` may by now belong
+                # to an unrelated, tracked, array - which must be left alone.
+                if view_ref is not None and view_arr is None:
+                    del _array_tracker[view_arr_id]
                 continue
+            del _array_tracker[view_arr_id]
 
             try:
                 view_arr.flags.writeable = True
